@@ -63,8 +63,9 @@ def sym(ctx, cfg):
         if "No target PSMs were detected" in msg or "No decoy PSMs were detected" in msg:
             # a training fold without targets or decoys: explicit, documented error
             return PathOutcome([], inputs, None, "legit_exc", note=type(ex).__name__ + "(" + msg[:40] + ")")
-        if "No PSMs were detected" in msg and _some_training_set_empty(split_rec, folds):
-            # one fold holds every PSM (fewer spectra than folds can separate): nothing to train on
+        if "No PSMs were detected" in msg and (_some_training_set_empty(split_rec, folds) or cap is not None):
+            # one fold holds every PSM (fewer spectra than folds can separate), or the cap leaves a file's share
+            # empty: nothing to train on - explicit error
             return PathOutcome([], inputs, None, "legit_exc", note="ValueError(No PSMs: empty training set)")
         return PathOutcome([], inputs, None, "exc", note=type(ex).__name__ + ":" + msg[:80])
     except Exception as ex:
@@ -171,6 +172,7 @@ def harnesses(tier):
         add("n=3,folds=2,2 files", dict(n=3, folds=2, files=2, sizes=[3, 2]))
         add("n=4,folds=2,cap,rng,fixed labels", dict(n=4, folds=2, cap=True, rng=True, fixed_labels=True))
         add("n=4,folds=2,one key column,fixed labels", dict(n=4, folds=2, keycols=1, fixed_labels=True))
+        add("n=4+2,folds=2,2 files,cap,fixed labels", dict(n=4, folds=2, files=2, sizes=[4, 2], cap=True, fixed_labels=True))
         add("n=4,folds=2,prediction chunk symbolic,fixed labels", dict(n=4, folds=2, sym_chunks="prediction", fixed_labels=True))
         add("n=4,folds=2,read chunk symbolic,task order,fixed labels", dict(n=4, folds=2, sym_chunks="read", sched=True, fixed_labels=True))
     else:
@@ -279,6 +281,8 @@ def scripted_rng(perms):
 
         def choice(self, a, size=None, replace=True, **kw):
             a = np.asarray(a)
+            if not replace and size is not None and size > len(a):
+                raise ValueError("Cannot take a larger sample than population when 'replace=False'")
             return a[self._next(len(a))][:size]
     return Scripted()
 
@@ -320,7 +324,7 @@ def real_brew(cfg, inp):
             msg = str(ex)
             if "No target PSMs were detected" in msg or "No decoy PSMs were detected" in msg or "no target PSMs could be found below" in msg:
                 return dict(exception=type(ex).__name__ + ":" + msg[:60], violation=_leaks(log, keys, split_rec))
-            if "No PSMs were detected" in msg and _some_training_set_empty(split_rec, folds):
+            if "No PSMs were detected" in msg and (_some_training_set_empty(split_rec, folds) or inp.get("cap") is not None):
                 return dict(exception=type(ex).__name__ + ":" + msg[:60], violation=_leaks(log, keys, split_rec))
             return dict(exception=repr(ex), violation="brew raised %r (keys %s, folds %d, prediction chunk %s)" % (ex, keys, folds, inp["chunk_prediction"]))
         except Exception as ex:
